@@ -142,7 +142,8 @@ Call ==
                THEN [o EXCEPT !.sig = sig, !.site = site, !.msg = Ev.msg]
                ELSE IF m = "skip" /\ o.ended # "running" THEN [o EXCEPT !.ended = "skip"]   \* a skip raised from a cleanup
                ELSE o
-     IN SetObs(IF sig # "none" THEN [o2 EXCEPT !.msgs = @ \cup {Ev.msg}] ELSE o2)
+         o3 == IF m = "skip" /\ o.inInv THEN [o2 EXCEPT !.invSkip = TRUE] ELSE o2
+     IN SetObs(IF sig # "none" THEN [o3 EXCEPT !.msgs = @ \cup {Ev.msg}] ELSE o3)
   /\ viol' = viol
   /\ UNCHANGED <<scen, ffBuf, topInv, runlog, prev, runinfo>>
 
@@ -154,6 +155,13 @@ ActionNone ==
             THEN [cur.obs EXCEPT !.sig = "fatal", !.site = "no-valid-action", !.msg = "can't find a valid (non-skipped) action",
                                  !.msgs = @ \cup {"can't find a valid (non-skipped) action"}]
             ELSE [cur.obs EXCEPT !.msgs = @ \cup {"can't find a valid (non-skipped) action"}])
+  /\ viol' = viol
+  /\ UNCHANGED <<scen, ffBuf, topInv, runlog, prev, runinfo>>
+
+\* the invariant of a state machine runs (T.Repeat's "" action)
+SmInv ==
+  /\ l <= Len(Trace) /\ Trace[l].ev \in {"sm.inv.begin", "sm.inv.end"} /\ Adv
+  /\ SetObs([cur.obs EXCEPT !.inInv = (Ev.ev = "sm.inv.begin")])
   /\ viol' = viol
   /\ UNCHANGED <<scen, ffBuf, topInv, runlog, prev, runinfo>>
 
@@ -190,7 +198,7 @@ InvEnd ==
 \* events the engine specification does not talk about (custom-function brackets etc.)
 Handled == {"scen.end", "ctx", "scen.begin", "run.begin", "h.failfiles", "h.ff.load", "h.phase", "h.once.begin", "inv.begin", "draw", "call", "inv.end",
             "h.once.end", "h.shrink.begin", "h.accept", "h.shrink.end", "h.docheck.ret", "h.save", "tb.logf", "tb.errorf", "tb.failnow",
-            "run.end", "fs", "recovered", "timing", "h.action.none"}
+            "run.end", "fs", "recovered", "timing", "h.action.none", "sm.inv.begin", "sm.inv.end"}
 Other ==
   /\ l <= Len(Trace) /\ Trace[l].ev \notin Handled
   /\ Adv /\ EUnch /\ viol' = viol /\ UNCHANGED <<scen, ffBuf, topInv, runlog, prev, runinfo>>
@@ -328,7 +336,7 @@ FS ==
   /\ EUnch /\ viol' = viol \cup V_FS(Ev.files)
   /\ UNCHANGED <<scen, ffBuf, topInv, runlog, prev, runinfo>>
 
-Next == ScenEnd \/ Ctx \/ ScenBegin \/ RunBegin \/ FFList \/ FFLoad \/ Phase \/ OnceBegin \/ InvBegin \/ Draw \/ Call \/ Recovered \/ ActionNone \/ Timing \/ InvEnd \/ Other
+Next == ScenEnd \/ Ctx \/ ScenBegin \/ RunBegin \/ FFList \/ FFLoad \/ Phase \/ OnceBegin \/ InvBegin \/ Draw \/ Call \/ SmInv \/ Recovered \/ ActionNone \/ Timing \/ InvEnd \/ Other
         \/ OnceEnd \/ ShrinkBegin \/ Accept \/ ShrinkEnd \/ DoCheckRet \/ Save \/ TBLog \/ TBErrorf \/ TBFailNow \/ RunEnd \/ FS
 
 Spec == Init /\ [][Next]_vars
